@@ -1,6 +1,811 @@
+(* Proofs for the ConnectedBitmask part of the C17 model. *)
 From Coq Require Import NArith List Bool Lia ZifyBool ZifyN ZifyNat.
 Require Import Pk.Bitmask.
 Open Scope N_scope.
 
+Ltac dcmp :=
+  repeat match goal with
+  | |- context [if ?c then _ else _] => destruct c eqn:?
+  | H : context [if ?c then _ else _] |- _ => destruct c eqn:?
+  end.
+
 Lemma wfc_weaken lo lo' l : lo' <= lo -> wfc lo l -> wfc lo' l.
 Proof. destruct l as [|[mn mx] r]; cbn; intros; intuition lia. Qed.
+
+Lemma mem_c_nil i : mem_c [] i = false.
+Proof. reflexivity. Qed.
+
+Lemma mem_c_cons mn mx r i :
+  mem_c ((mn, mx) :: r) i = ((mn <=? i) && (i <=? mx)) || mem_c r i.
+Proof. reflexivity. Qed.
+
+Lemma mem_c_app a b i : mem_c (a ++ b) i = mem_c a i || mem_c b i.
+Proof. unfold mem_c. apply existsb_app. Qed.
+
+Lemma mem_c_below lo l i : wfc lo l -> i < lo -> mem_c l i = false.
+Proof.
+  revert lo; induction l as [|[mn mx] r IH]; intros lo H Hi; [reflexivity|].
+  cbn in H. destruct H as (H1 & H2 & H3).
+  rewrite mem_c_cons, (IH (mx + 2)); auto; lia.
+Qed.
+
+Lemma c_isset_spec lo l b : wfc lo l -> c_isset l b = mem_c l b.
+Proof.
+  revert lo; induction l as [|[mn mx] r IH]; intros lo H; [reflexivity|].
+  cbn in H. destruct H as (H1 & H2 & H3).
+  cbn [c_isset]. rewrite mem_c_cons.
+  destruct (b <? mn) eqn:E1.
+  - rewrite (mem_c_below (mx + 2) r b) by (auto; lia). lia.
+  - destruct (b <=? mx) eqn:E2.
+    + lia.
+    + rewrite (IH _ H3). lia.
+Qed.
+
+(* ---------- Set ---------- *)
+Lemma c_set_spec l : forall lo b, wfc lo l ->
+  wfc (N.min lo b) (c_set l b) /\ forall i, mem_c (c_set l b) i = (i =? b) || mem_c l i.
+Proof.
+  induction l as [|[mn mx] r IH]; intros lo b H.
+  - cbn. split; [lia|]. intro i. lia.
+  - cbn in H. destruct H as (H1 & H2 & H3).
+    cbn [c_set].
+    destruct (b <? mn) eqn:E1.
+    { destruct (b =? mn - 1) eqn:E2.
+      - split.
+        + cbn. repeat split; try lia. exact H3.
+        + intro i. rewrite !mem_c_cons. lia.
+      - split.
+        + cbn. repeat split; try lia. eapply wfc_weaken; [|exact H3]. lia.
+        + intro i. rewrite !mem_c_cons. cbn. lia. }
+    destruct (b <=? mx) eqn:E2.
+    { split.
+      - cbn. repeat split; try lia. exact H3.
+      - intro i. rewrite !mem_c_cons. lia. }
+    destruct (b =? mx + 1) eqn:E3.
+    { destruct r as [|[mn2 mx2] r2].
+      - split; [cbn; lia|]. intro i. rewrite !mem_c_cons. cbn. lia.
+      - cbn in H3. destruct H3 as (G1 & G2 & G3).
+        destruct (b =? mn2 - 1) eqn:E4.
+        + split; [cbn; repeat split; try lia; exact G3|].
+          intro i. rewrite !mem_c_cons. lia.
+        + split; [cbn; repeat split; try lia; exact G3|].
+          intro i. rewrite !mem_c_cons. lia. }
+    destruct (IH (mx + 2) b H3) as [W M].
+    split.
+    + cbn. repeat split; try lia. eapply wfc_weaken; [|exact W]. lia.
+    + intro i. rewrite !mem_c_cons, M. lia.
+Qed.
+
+(* ---------- Unset ---------- *)
+Lemma c_unset_spec l : forall lo b, wfc lo l ->
+  wfc lo (c_unset l b) /\ forall i, mem_c (c_unset l b) i = negb (i =? b) && mem_c l i.
+Proof.
+  induction l as [|[mn mx] r IH]; intros lo b H.
+  - cbn. split; [exact I|]. intro i. lia.
+  - pose proof H as H0. cbn in H. destruct H as (H1 & H2 & H3).
+    cbn [c_unset].
+    destruct (b <? mn) eqn:E1.
+    { split; [exact H0|]. intro i.
+      destruct (i =? b) eqn:Ei; [|reflexivity].
+      cbn [negb andb]. rewrite mem_c_cons, (mem_c_below (mx + 2) r i) by (auto; lia). lia. }
+    assert (Hr: forall i, i <= mx -> mem_c r i = false).
+    { intros i Hi. apply (mem_c_below (mx + 2)); auto; lia. }
+    destruct ((b =? mn) || (b =? mx)) eqn:E2.
+    { destruct (mn =? mx) eqn:E3.
+      - split; [eapply wfc_weaken; [|exact H3]; lia|].
+        intro i. rewrite mem_c_cons.
+        destruct (i =? b) eqn:Ei; cbn [negb andb]; [apply Hr; lia|].
+        lia.
+      - destruct (b =? mn) eqn:E4.
+        + split; [cbn; repeat split; try lia; exact H3|].
+          intro i. rewrite !mem_c_cons.
+          destruct (i =? b) eqn:Ei; cbn [negb andb]; [rewrite Hr by lia; lia|lia].
+        + split; [cbn; repeat split; try lia; eapply wfc_weaken; [|exact H3]; lia|].
+          intro i. rewrite !mem_c_cons.
+          destruct (i =? b) eqn:Ei; cbn [negb andb]; [rewrite Hr by lia; lia|lia]. }
+    destruct (b <? mx) eqn:E3.
+    { split; [cbn; repeat split; try lia; exact H3|].
+      intro i. rewrite !mem_c_cons.
+      destruct (i =? b) eqn:Ei; cbn [negb andb]; [rewrite Hr by lia; lia|lia]. }
+    destruct (IH (mx + 2) b H3) as [W M].
+    split; [cbn; repeat split; try lia; exact W|].
+    intro i. rewrite !mem_c_cons, M. lia.
+Qed.
+
+Lemma c_flip_spec l lo b : wfc lo l ->
+  wfc (N.min lo b) (c_flip l b) /\
+  forall i, mem_c (c_flip l b) i = if i =? b then negb (mem_c l i) else mem_c l i.
+Proof.
+  intro H. unfold c_flip. rewrite (c_isset_spec lo l b H).
+  destruct (mem_c l b) eqn:E.
+  - destruct (c_unset_spec l lo b H) as [W M]. split.
+    + eapply wfc_weaken; [|exact W]. lia.
+    + intro i. rewrite M. destruct (i =? b) eqn:Ei; [|reflexivity].
+      assert (i = b) by lia. subst. rewrite E. reflexivity.
+  - destruct (c_set_spec l lo b H) as [W M]. split; [exact W|].
+    intro i. rewrite M. destruct (i =? b) eqn:Ei; [|reflexivity].
+    assert (i = b) by lia. subst. rewrite E. reflexivity.
+Qed.
+
+(* ---------- helpers for the two-pointer algebra ---------- *)
+Lemma mem_c_lb lo l i : wfc lo l -> mem_c l i = true -> lo <= i.
+Proof.
+  intros H M. destruct (N.lt_ge_cases i lo) as [L|L]; [|exact L].
+  rewrite (mem_c_below lo l i H L) in M. discriminate.
+Qed.
+
+Lemma wfc_head lo mn mx r : wfc lo ((mn, mx) :: r) -> wfc mn ((mn, mx) :: r).
+Proof. cbn. intuition lia. Qed.
+
+Ltac blia := repeat match goal with |- context [mem_c ?l ?i] => destruct (mem_c l i) end; lia.
+
+(* facts about membership in tails, for a fixed index *)
+Ltac tailfact H i :=
+  match type of H with
+  | wfc ?lo ?l => let F := fresh "F" in pose proof (mem_c_lb lo l i H) as F
+  end.
+
+(* ---------- And ---------- *)
+Lemma c_and_go_spec : forall fuel a b la lb,
+  wfc la a -> wfc lb b -> (length a + length b < fuel)%nat ->
+  wfc (N.max la lb) (c_and_go fuel a b) /\
+  forall i, mem_c (c_and_go fuel a b) i = mem_c a i && mem_c b i.
+Proof.
+  induction fuel as [|f IH]; intros a b la lb Ha Hb Hf; [lia|].
+  cbn [c_and_go].
+  destruct a as [|[amn amx] ar].
+  { split; [exact I|]. intro i. reflexivity. }
+  destruct b as [|[bmn bmx] br].
+  { split; [exact I|]. intro i. rewrite mem_c_nil. lia. }
+  pose proof Ha as Ha0. pose proof Hb as Hb0.
+  cbn in Ha, Hb. destruct Ha as (A1 & A2 & A3). destruct Hb as (B1 & B2 & B3).
+  cbn [length] in Hf.
+  destruct (amx <? bmn) eqn:E1.
+  { destruct (IH ar ((bmn, bmx) :: br) (amx + 2) lb A3 Hb0 ltac:(cbn [length]; lia)) as [W M].
+    split; [eapply wfc_weaken; [|exact W]; lia|].
+    intro i. rewrite M, !mem_c_cons. tailfact B3 i.
+    destruct (mem_c ar i), (mem_c br i); lia. }
+  destruct (bmx <? amn) eqn:E2.
+  { destruct (IH ((amn, amx) :: ar) br la (bmx + 2) Ha0 B3 ltac:(cbn [length]; lia)) as [W M].
+    split; [eapply wfc_weaken; [|exact W]; lia|].
+    intro i. rewrite M, !mem_c_cons. tailfact A3 i.
+    destruct (mem_c ar i), (mem_c br i); lia. }
+  cbv zeta.
+  destruct (N.min amx bmx =? amx) eqn:E3; destruct (N.min amx bmx =? bmx) eqn:E4; try lia.
+  - destruct (IH ar br (amx + 2) (bmx + 2) A3 B3 ltac:(lia)) as [W M].
+    split; [cbn; repeat split; try lia; eapply wfc_weaken; [|exact W]; lia|].
+    intro i. rewrite mem_c_cons, M, !mem_c_cons. tailfact A3 i. tailfact B3 i.
+    destruct (mem_c ar i), (mem_c br i); lia.
+  - destruct (IH ar ((bmn, bmx) :: br) (amx + 2) lb A3 Hb0 ltac:(cbn [length]; lia)) as [W M].
+    split; [cbn; repeat split; try lia; eapply wfc_weaken; [|exact W]; lia|].
+    intro i. rewrite mem_c_cons, M, !mem_c_cons. tailfact A3 i. tailfact B3 i.
+    destruct (mem_c ar i), (mem_c br i); lia.
+  - destruct (IH ((amn, amx) :: ar) br la (bmx + 2) Ha0 B3 ltac:(cbn [length]; lia)) as [W M].
+    split; [cbn; repeat split; try lia; eapply wfc_weaken; [|exact W]; lia|].
+    intro i. rewrite mem_c_cons, M, !mem_c_cons. tailfact A3 i. tailfact B3 i.
+    destruct (mem_c ar i), (mem_c br i); lia.
+Qed.
+
+Lemma c_and_spec a b la lb : wfc la a -> wfc lb b ->
+  wfc (N.max la lb) (c_and a b) /\ forall i, mem_c (c_and a b) i = mem_c a i && mem_c b i.
+Proof. intros. apply c_and_go_spec; auto. lia. Qed.
+
+(* ---------- Sub ---------- *)
+Lemma c_sub_go_spec : forall fuel a b la lb,
+  wfc la a -> wfc lb b -> (length a + length b < fuel)%nat ->
+  wfc la (c_sub_go fuel a b) /\
+  forall i, mem_c (c_sub_go fuel a b) i = mem_c a i && negb (mem_c b i).
+Proof.
+  induction fuel as [|f IH]; intros a b la lb Ha Hb Hf; [lia|].
+  cbn [c_sub_go].
+  destruct a as [|[amn amx] ar].
+  { split; [exact I|]. intro i. reflexivity. }
+  destruct b as [|[bmn bmx] br].
+  { split; [exact Ha|]. intro i. rewrite mem_c_nil. cbn [negb]. rewrite andb_true_r. reflexivity. }
+  pose proof Ha as Ha0. pose proof Hb as Hb0.
+  cbn in Ha, Hb. destruct Ha as (A1 & A2 & A3). destruct Hb as (B1 & B2 & B3).
+  cbn [length] in Hf.
+  destruct (bmx <? amn) eqn:E1.
+  { destruct (IH ((amn, amx) :: ar) br la (bmx + 2) Ha0 B3 ltac:(cbn [length]; lia)) as [W M].
+    split; [exact W|].
+    intro i. rewrite M, !mem_c_cons. tailfact A3 i.
+    destruct (mem_c ar i), (mem_c br i); lia. }
+  destruct (amx <? bmn) eqn:E2.
+  { destruct (IH ar ((bmn, bmx) :: br) (amx + 2) lb A3 Hb0 ltac:(cbn [length]; lia)) as [W M].
+    split; [cbn; repeat split; try lia; exact W|].
+    intro i. rewrite mem_c_cons, M, !mem_c_cons. tailfact B3 i.
+    destruct (mem_c ar i), (mem_c br i); lia. }
+  destruct (amx <=? bmx) eqn:E3.
+  - destruct (IH ar ((bmn, bmx) :: br) (amx + 2) lb A3 Hb0 ltac:(cbn [length]; lia)) as [W M].
+    destruct (amn <? bmn) eqn:E4; cbn [app].
+    + split; [cbn; repeat split; try lia; eapply wfc_weaken; [|exact W]; lia|].
+      intro i. rewrite mem_c_cons, M, !mem_c_cons. tailfact A3 i. tailfact B3 i.
+      destruct (mem_c ar i), (mem_c br i); lia.
+    + split; [eapply wfc_weaken; [|exact W]; lia|].
+      intro i. rewrite M, !mem_c_cons. tailfact A3 i. tailfact B3 i.
+      destruct (mem_c ar i), (mem_c br i); lia.
+  - assert (Ha' : wfc (bmx + 1) ((bmx + 1, amx) :: ar)) by (cbn; repeat split; try lia; exact A3).
+    destruct (IH ((bmx + 1, amx) :: ar) br (bmx + 1) (bmx + 2) Ha' B3 ltac:(cbn [length]; lia)) as [W M].
+    destruct (amn <? bmn) eqn:E4; cbn [app].
+    + split; [cbn; repeat split; try lia; eapply wfc_weaken; [|exact W]; lia|].
+      intro i. rewrite mem_c_cons, M, !mem_c_cons. tailfact A3 i. tailfact B3 i.
+      destruct (mem_c ar i), (mem_c br i); lia.
+    + split; [eapply wfc_weaken; [|exact W]; lia|].
+      intro i. rewrite M, !mem_c_cons. tailfact A3 i. tailfact B3 i.
+      destruct (mem_c ar i), (mem_c br i); lia.
+Qed.
+
+Lemma c_sub_spec a b la lb : wfc la a -> wfc lb b ->
+  wfc la (c_sub a b) /\ forall i, mem_c (c_sub a b) i = mem_c a i && negb (mem_c b i).
+Proof. intros. eapply c_sub_go_spec; eauto. lia. Qed.
+
+(* ---------- Or ---------- *)
+Definition or_measure (cur : option run) (a b : cbm) : nat :=
+  (2 * (length a + length b) + match cur with Some _ => 1 | None => 0 end)%nat.
+
+Definition in_run (n : run) (i : N) : bool := (fst n <=? i) && (i <=? snd n).
+
+Lemma c_or_go_spec : forall fuel cur a b la lb,
+  wfc la a -> wfc lb b -> (or_measure cur a b < fuel)%nat ->
+  match cur with
+  | None =>
+      wfc (N.min la lb) (c_or_go fuel None a b) /\
+      forall i, mem_c (c_or_go fuel None a b) i = mem_c a i || mem_c b i
+  | Some (nmn, nmx) =>
+      nmn <= nmx -> nmn <= la -> nmn <= lb ->
+      wfc nmn (c_or_go fuel cur a b) /\
+      forall i, mem_c (c_or_go fuel cur a b) i = in_run (nmn, nmx) i || mem_c a i || mem_c b i
+  end.
+Proof.
+  unfold or_measure, in_run.
+  induction fuel as [|f IH]; intros cur a b la lb Ha Hb Hf; [lia|].
+  destruct cur as [[nmn nmx]|].
+  - (* a run is under construction *)
+    intros Hn La Lb. cbn [c_or_go fst snd].
+    destruct a as [|[amn amx] ar].
+    + destruct b as [|[bmn bmx] br].
+      * split; [cbn; lia|]. intro i. rewrite mem_c_cons, !mem_c_nil. cbn [fst snd]. blia.
+      * pose proof Hb as Hb0. cbn in Hb. destruct Hb as (B1 & B2 & B3).
+        destruct (bmn <=? nmx + 1) eqn:E1.
+        { pose proof (IH (Some (nmn, N.max nmx bmx)) [] br la (bmx + 2) Ha B3
+                         ltac:(cbn [length] in *; lia)) as P.
+          cbn beta iota in P. destruct P as [W M]; try lia.
+          split; [exact W|]. intro i. rewrite M, !mem_c_cons, !mem_c_nil. cbn [fst snd].
+          tailfact B3 i. destruct (mem_c br i); lia. }
+        { pose proof (IH None [] ((bmn, bmx) :: br) bmn bmn I (wfc_head _ _ _ _ Hb0)
+                         ltac:(cbn [length] in *; lia)) as P.
+          cbn beta iota in P. destruct P as [W M].
+          split.
+          - cbn [wfc]. repeat split; try lia. eapply wfc_weaken; [|exact W]. lia.
+          - intro i. rewrite mem_c_cons, M, mem_c_nil. cbn [fst snd]. blia. }
+    + pose proof Ha as Ha0. cbn in Ha. destruct Ha as (A1 & A2 & A3).
+      destruct (amn <=? nmx + 1) eqn:E1.
+      { pose proof (IH (Some (nmn, N.max nmx amx)) ar b (amx + 2) lb A3 Hb
+                       ltac:(cbn [length] in *; lia)) as P.
+        cbn beta iota in P. destruct P as [W M]; try lia.
+        split; [exact W|]. intro i. rewrite M, !mem_c_cons. cbn [fst snd].
+        tailfact A3 i. destruct (mem_c ar i); lia. }
+      destruct b as [|[bmn bmx] br].
+      { pose proof (IH None ((amn, amx) :: ar) [] amn amn (wfc_head _ _ _ _ Ha0) I
+                       ltac:(cbn [length] in *; lia)) as P.
+        cbn beta iota in P. destruct P as [W M].
+        split.
+        - cbn [wfc]. repeat split; try lia. eapply wfc_weaken; [|exact W]. lia.
+        - intro i. rewrite mem_c_cons, M, mem_c_nil. cbn [fst snd]. blia. }
+      pose proof Hb as Hb0. cbn in Hb. destruct Hb as (B1 & B2 & B3).
+      destruct (bmn <=? nmx + 1) eqn:E2.
+      { pose proof (IH (Some (nmn, N.max nmx bmx)) ((amn, amx) :: ar) br la (bmx + 2) Ha0 B3
+                       ltac:(cbn [length] in *; lia)) as P.
+        cbn beta iota in P. destruct P as [W M]; try lia.
+        split; [exact W|]. intro i. rewrite M, !mem_c_cons. cbn [fst snd].
+        tailfact B3 i. destruct (mem_c br i); lia. }
+      { pose proof (IH None ((amn, amx) :: ar) ((bmn, bmx) :: br) amn bmn
+                       (wfc_head _ _ _ _ Ha0) (wfc_head _ _ _ _ Hb0)
+                       ltac:(cbn [length] in *; lia)) as P.
+        cbn beta iota in P. destruct P as [W M].
+        split.
+        - cbn [wfc]. repeat split; try lia. eapply wfc_weaken; [|exact W]. lia.
+        - intro i. rewrite mem_c_cons, M. cbn [fst snd]. blia. }
+  - (* pick the next run *)
+    cbn [c_or_go].
+    destruct a as [|[amn amx] ar].
+    { split; [eapply wfc_weaken; [|exact Hb]; lia|]. intro i. rewrite mem_c_nil. reflexivity. }
+    destruct b as [|[bmn bmx] br].
+    { split; [eapply wfc_weaken; [|exact Ha]; lia|]. intro i. rewrite mem_c_nil. lia. }
+    pose proof Ha as Ha0. pose proof Hb as Hb0.
+    cbn in Ha, Hb. destruct Ha as (A1 & A2 & A3). destruct Hb as (B1 & B2 & B3).
+    destruct (amx <? bmn) eqn:E1.
+    { pose proof (IH (Some (amn, amx)) ar ((bmn, bmx) :: br) (amx + 2) bmn A3 (wfc_head _ _ _ _ Hb0)
+                     ltac:(cbn [length] in *; lia)) as P.
+      cbn beta iota in P. destruct P as [W M]; try lia.
+      split; [eapply wfc_weaken; [|exact W]; lia|].
+      intro i. rewrite M, !mem_c_cons. cbn [fst snd]. blia. }
+    destruct (bmx <? amn) eqn:E2.
+    { pose proof (IH (Some (bmn, bmx)) ((amn, amx) :: ar) br amn (bmx + 2) (wfc_head _ _ _ _ Ha0) B3
+                     ltac:(cbn [length] in *; lia)) as P.
+      cbn beta iota in P. destruct P as [W M]; try lia.
+      split; [eapply wfc_weaken; [|exact W]; lia|].
+      intro i. rewrite M, !mem_c_cons. cbn [fst snd]. blia. }
+    pose proof (IH (Some (N.min amn bmn, N.max amx bmx)) ar br (amx + 2) (bmx + 2) A3 B3
+                   ltac:(cbn [length] in *; lia)) as P.
+    cbn beta iota in P. destruct P as [W M]; try lia.
+    split; [eapply wfc_weaken; [|exact W]; lia|].
+    intro i. rewrite M, !mem_c_cons. cbn [fst snd]. blia.
+Qed.
+
+Lemma c_or_spec a b la lb : wfc la a -> wfc lb b ->
+  wfc (N.min la lb) (c_or a b) /\ forall i, mem_c (c_or a b) i = mem_c a i || mem_c b i.
+Proof.
+  intros Ha Hb. unfold c_or.
+  apply (c_or_go_spec _ None a b la lb Ha Hb). unfold or_measure. lia.
+Qed.
+
+(* ---------- Xor ---------- *)
+Fixpoint wfw (lo : N) (l : cbm) : Prop :=
+  match l with
+  | [] => True
+  | (mn, mx) :: r => lo <= mn /\ mn <= mx /\ wfw (mx + 1) r
+  end.
+
+Lemma wfw_weaken lo lo' l : lo' <= lo -> wfw lo l -> wfw lo' l.
+Proof. destruct l as [|[mn mx] r]; cbn; intros; intuition lia. Qed.
+
+Lemma wfc_wfw l : forall lo, wfc lo l -> wfw lo l.
+Proof.
+  induction l as [|[mn mx] r IH]; intros lo H; [exact I|].
+  cbn in *. destruct H as (H1 & H2 & H3). repeat split; try lia.
+  eapply wfw_weaken; [|apply IH; exact H3]. lia.
+Qed.
+
+Lemma c_xor_raw_spec : forall fuel a b la lb,
+  wfc la a -> wfc lb b -> (length a + length b < fuel)%nat ->
+  wfw (N.min la lb) (c_xor_raw fuel a b) /\
+  forall i, mem_c (c_xor_raw fuel a b) i = xorb (mem_c a i) (mem_c b i).
+Proof.
+  induction fuel as [|f IH]; intros a b la lb Ha Hb Hf; [lia|].
+  cbn [c_xor_raw].
+  destruct a as [|[amn amx] ar].
+  { split; [eapply wfw_weaken; [|apply wfc_wfw; exact Hb]; lia|].
+    intro i. rewrite mem_c_nil. destruct (mem_c b i); reflexivity. }
+  destruct b as [|[bmn bmx] br].
+  { split; [eapply wfw_weaken; [|apply wfc_wfw; exact Ha]; lia|].
+    intro i. rewrite mem_c_nil. destruct (mem_c _ i); reflexivity. }
+  pose proof Ha as Ha0. pose proof Hb as Hb0.
+  cbn in Ha, Hb. destruct Ha as (A1 & A2 & A3). destruct Hb as (B1 & B2 & B3).
+  cbn [length] in Hf.
+  destruct (amx <? bmn) eqn:E1.
+  { destruct (IH ar ((bmn, bmx) :: br) (amx + 2) bmn A3 (wfc_head _ _ _ _ Hb0)
+                 ltac:(cbn [length]; lia)) as [W M].
+    split; [cbn [wfw]; repeat split; try lia; eapply wfw_weaken; [|exact W]; lia|].
+    intro i. rewrite mem_c_cons, M, !mem_c_cons. tailfact A3 i. tailfact B3 i. blia. }
+  destruct (bmx <? amn) eqn:E2.
+  { destruct (IH ((amn, amx) :: ar) br amn (bmx + 2) (wfc_head _ _ _ _ Ha0) B3
+                 ltac:(cbn [length]; lia)) as [W M].
+    split; [cbn [wfw]; repeat split; try lia; eapply wfw_weaken; [|exact W]; lia|].
+    intro i. rewrite mem_c_cons, M, !mem_c_cons. tailfact A3 i. tailfact B3 i. blia. }
+  destruct (amx =? bmx) eqn:E3.
+  { destruct (IH ar br (amx + 2) (bmx + 2) A3 B3 ltac:(lia)) as [W M].
+    destruct (amn =? bmn) eqn:E4; [|destruct (amn <? bmn) eqn:E5]; cbn [app].
+    - split; [eapply wfw_weaken; [|exact W]; lia|].
+      intro i. rewrite M, !mem_c_cons. tailfact A3 i. tailfact B3 i. blia.
+    - split; [cbn [wfw]; repeat split; try lia; eapply wfw_weaken; [|exact W]; lia|].
+      intro i. rewrite mem_c_cons, M, !mem_c_cons. tailfact A3 i. tailfact B3 i. blia.
+    - split; [cbn [wfw]; repeat split; try lia; eapply wfw_weaken; [|exact W]; lia|].
+      intro i. rewrite mem_c_cons, M, !mem_c_cons. tailfact A3 i. tailfact B3 i. blia. }
+  destruct (bmx <? amx) eqn:E6.
+  { assert (Ha' : wfc (bmx + 1) ((bmx + 1, amx) :: ar)) by (cbn; repeat split; try lia; exact A3).
+    destruct (IH ((bmx + 1, amx) :: ar) br (bmx + 1) (bmx + 2) Ha' B3 ltac:(cbn [length]; lia)) as [W M].
+    destruct (amn =? bmn) eqn:E4; [|destruct (amn <? bmn) eqn:E5]; cbn [app].
+    - split; [eapply wfw_weaken; [|exact W]; lia|].
+      intro i. rewrite M, !mem_c_cons. tailfact A3 i. tailfact B3 i. blia.
+    - split; [cbn [wfw]; repeat split; try lia; eapply wfw_weaken; [|exact W]; lia|].
+      intro i. rewrite mem_c_cons, M, !mem_c_cons. tailfact A3 i. tailfact B3 i. blia.
+    - split; [cbn [wfw]; repeat split; try lia; eapply wfw_weaken; [|exact W]; lia|].
+      intro i. rewrite mem_c_cons, M, !mem_c_cons. tailfact A3 i. tailfact B3 i. blia. }
+  { assert (Hb' : wfc (amx + 1) ((amx + 1, bmx) :: br)) by (cbn; repeat split; try lia; exact B3).
+    destruct (IH ar ((amx + 1, bmx) :: br) (amx + 2) (amx + 1) A3 Hb' ltac:(cbn [length]; lia)) as [W M].
+    destruct (amn =? bmn) eqn:E4; [|destruct (amn <? bmn) eqn:E5]; cbn [app].
+    - split; [eapply wfw_weaken; [|exact W]; lia|].
+      intro i. rewrite M, !mem_c_cons. tailfact A3 i. tailfact B3 i. blia.
+    - split; [cbn [wfw]; repeat split; try lia; eapply wfw_weaken; [|exact W]; lia|].
+      intro i. rewrite mem_c_cons, M, !mem_c_cons. tailfact A3 i. tailfact B3 i. blia.
+    - split; [cbn [wfw]; repeat split; try lia; eapply wfw_weaken; [|exact W]; lia|].
+      intro i. rewrite mem_c_cons, M, !mem_c_cons. tailfact A3 i. tailfact B3 i. blia. }
+Qed.
+
+Lemma c_join_spec l : forall lo, wfw lo l ->
+  wfc lo (c_join l) /\ forall i, mem_c (c_join l) i = mem_c l i.
+Proof.
+  induction l as [|[mn mx] r IH]; intros lo H; [split; [exact I|reflexivity]|].
+  cbn in H. destruct H as (H1 & H2 & H3).
+  destruct (IH _ H3) as [W M]. cbn [c_join].
+  destruct (c_join r) as [|[mn2 mx2] r2].
+  - split; [cbn; lia|]. intro i. rewrite !mem_c_cons, <- M. reflexivity.
+  - cbn in W. destruct W as (W1 & W2 & W3).
+    destruct (mx + 1 =? mn2) eqn:E.
+    + split; [cbn; repeat split; try lia; exact W3|].
+      intro i. rewrite (mem_c_cons mn mx r), <- M, !mem_c_cons. blia.
+    + split; [cbn; repeat split; try lia; exact W3|].
+      intro i. rewrite (mem_c_cons mn mx r), <- M, !mem_c_cons. blia.
+Qed.
+
+Lemma c_xor_spec a b la lb : wfc la a -> wfc lb b ->
+  wfc (N.min la lb) (c_xor a b) /\ forall i, mem_c (c_xor a b) i = xorb (mem_c a i) (mem_c b i).
+Proof.
+  intros Ha Hb. unfold c_xor, c_xor_prefix.
+  destruct (c_xor_raw_spec (length a + length b + 1) a b la lb Ha Hb ltac:(lia)) as [W M].
+  destruct (c_join_spec _ _ W) as [W' M'].
+  split; [exact W'|]. intro i. rewrite M', M. reflexivity.
+Qed.
+
+(* ---------- Equal / IsZero: canonicity of the run list ---------- *)
+Lemma c_equal_eq a : forall b, c_equal a b = true <-> a = b.
+Proof.
+  induction a as [|[m1 x1] a IH]; intros [|[m2 x2] b]; cbn; try (split; [discriminate|discriminate]);
+    try (split; reflexivity).
+  unfold run_eqb. cbn [fst snd]. split.
+  - intro H. apply andb_true_iff in H. destruct H as [H1 H2].
+    apply IH in H2. subst. f_equal. f_equal; lia.
+  - intro H. inversion H; subst. apply andb_true_iff. split; [lia|]. apply IH. reflexivity.
+Qed.
+
+Lemma wfc_canonical a : forall b lo,
+  wfc lo a -> wfc lo b -> (forall i, mem_c a i = mem_c b i) -> a = b.
+Proof.
+  induction a as [|[m1 x1] a IH]; intros [|[m2 x2] b] lo Ha Hb E.
+  - reflexivity.
+  - cbn in Hb. specialize (E m2). rewrite mem_c_nil, mem_c_cons in E. lia.
+  - cbn in Ha. specialize (E m1). rewrite mem_c_nil, mem_c_cons in E. lia.
+  - pose proof Ha as Ha0. pose proof Hb as Hb0.
+    cbn in Ha, Hb. destruct Ha as (A1 & A2 & A3). destruct Hb as (B1 & B2 & B3).
+    assert (m1 = m2).
+    { pose proof (E m1) as E1. pose proof (E m2) as E2. rewrite !mem_c_cons in E1, E2.
+      tailfact A3 m2. tailfact B3 m1. destruct (mem_c a m2), (mem_c b m1); lia. }
+    subst m2.
+    assert (x1 = x2).
+    { pose proof (E (x1 + 1)) as E1. pose proof (E (x2 + 1)) as E2. rewrite !mem_c_cons in E1, E2.
+      tailfact A3 (x1 + 1). tailfact A3 (x2 + 1). tailfact B3 (x1 + 1). tailfact B3 (x2 + 1).
+      destruct (mem_c a (x1 + 1)), (mem_c a (x2 + 1)), (mem_c b (x1 + 1)), (mem_c b (x2 + 1)); lia. }
+    subst x2. f_equal.
+    apply (IH b (x1 + 2) A3 B3). intro i.
+    pose proof (E i) as Ei. rewrite !mem_c_cons in Ei.
+    tailfact A3 i. tailfact B3 i. destruct (mem_c a i), (mem_c b i); lia.
+Qed.
+
+Theorem c_equal_spec a b : wf_c a -> wf_c b ->
+  (c_equal a b = true <-> forall i, mem_c a i = mem_c b i).
+Proof.
+  intros Ha Hb. rewrite c_equal_eq. split.
+  - intros ->. reflexivity.
+  - apply (wfc_canonical a b 0 Ha Hb).
+Qed.
+
+Theorem c_iszero_spec a : wf_c a -> (c_iszero a = true <-> forall i, mem_c a i = false).
+Proof.
+  intro Ha. destruct a as [|[mn mx] r]; cbn [c_iszero].
+  - split; [reflexivity|reflexivity].
+  - split; [discriminate|]. intro E. specialize (E mn). rewrite mem_c_cons in E.
+    cbn in Ha. lia.
+Qed.
+
+(* Len = 1 + largest member (0 for the empty set) *)
+Lemma c_len_app l mn mx : c_len (l ++ [(mn, mx)]) = mx + 1.
+Proof. unfold c_len. rewrite rev_app_distr. reflexivity. Qed.
+
+Lemma c_len_spec l : forall lo, wfc lo l ->
+  (forall i, mem_c l i = true -> i < c_len l) /\
+  (l <> [] -> mem_c l (c_len l - 1) = true /\ 0 < c_len l).
+Proof.
+  induction l as [|[mn mx] r IH]; intros lo H.
+  - split; [intros i; rewrite mem_c_nil; discriminate|]. intro C; contradiction.
+  - cbn in H. destruct H as (H1 & H2 & H3). destruct (IH _ H3) as [U V].
+    destruct r as [|e r'].
+    + unfold c_len. cbn [rev app]. split.
+      * intros i. rewrite mem_c_cons, mem_c_nil. lia.
+      * intros _. rewrite mem_c_cons, mem_c_nil. split; lia.
+    + assert (Hne : e :: r' <> []) by discriminate.
+      assert (Hl : c_len ((mn, mx) :: e :: r') = c_len (e :: r')).
+      { unfold c_len. cbn [rev]. destruct (rev r' ++ [e]) eqn:R.
+        - destruct (rev r'); discriminate.
+        - reflexivity. }
+      rewrite Hl. destruct (V Hne) as [V1 V2]. split.
+      * intros i. rewrite mem_c_cons. intro M.
+        destruct (mem_c (e :: r') i) eqn:Mi; [apply U; exact Mi|].
+        pose proof (mem_c_lb _ _ _ H3 V1). lia.
+      * intros _. rewrite mem_c_cons, V1. split; [lia|exact V2].
+Qed.
+
+(* OnesCount = number of members: counted against a run-wise sum over the set model *)
+Fixpoint count_upto (s : N -> bool) (n : nat) : N :=
+  match n with O => 0 | S k => (if s (N.of_nat k) then 1 else 0) + count_upto s k end.
+
+Lemma count_upto_ext s t n : (forall i, i < N.of_nat n -> s i = t i) -> count_upto s n = count_upto t n.
+Proof.
+  induction n as [|k IH]; intro E; [reflexivity|].
+  cbn [count_upto]. rewrite E by lia. rewrite IH; [reflexivity|]. intros i Hi. apply E. lia.
+Qed.
+
+Lemma count_upto_false s n : (forall i, i < N.of_nat n -> s i = false) -> count_upto s n = 0.
+Proof.
+  induction n as [|k IH]; intro E; [reflexivity|].
+  cbn [count_upto]. rewrite E by lia. rewrite IH; [reflexivity|]. intros i Hi. apply E. lia.
+Qed.
+
+(* number of members of the interval [mn,mx] below n *)
+Lemma count_upto_interval_gen mn mx n : mn <= mx ->
+  count_upto (fun i => (mn <=? i) && (i <=? mx)) n
+  = N.min (N.of_nat n) (mx + 1) - N.min (N.of_nat n) mn.
+Proof.
+  intros H1. induction n as [|k IH]; [cbn; lia|].
+  cbn [count_upto]. rewrite IH.
+  destruct ((mn <=? N.of_nat k) && (N.of_nat k <=? mx)) eqn:E; lia.
+Qed.
+
+Lemma count_upto_interval mn mx n : mn <= mx -> mx < N.of_nat n ->
+  count_upto (fun i => (mn <=? i) && (i <=? mx)) n = 1 + mx - mn.
+Proof. intros H1 H2. rewrite count_upto_interval_gen by exact H1. lia. Qed.
+
+Lemma count_upto_or s t n : (forall i, i < N.of_nat n -> s i && t i = false) ->
+  count_upto (fun i => s i || t i) n = count_upto s n + count_upto t n.
+Proof.
+  induction n as [|k IH]; intro D; [reflexivity|].
+  cbn [count_upto]. rewrite IH by (intros i Hi; apply D; lia).
+  specialize (D (N.of_nat k) ltac:(lia)).
+  destruct (s (N.of_nat k)), (t (N.of_nat k)); cbn [orb andb] in *; try discriminate; lia.
+Qed.
+
+Theorem c_count_spec l : forall lo n, wfc lo l -> c_len l <= N.of_nat n ->
+  c_count l = count_upto (mem_c l) n.
+Proof.
+  induction l as [|[mn mx] r IH]; intros lo n H Hn.
+  - cbn [c_count]. symmetry. apply count_upto_false. intros. apply mem_c_nil.
+  - pose proof (c_len_spec _ _ H) as [U V].
+    cbn in H. destruct H as (H1 & H2 & H3).
+    assert (Hmx : mx < N.of_nat n).
+    { assert (M : mem_c ((mn, mx) :: r) mx = true) by (rewrite mem_c_cons; lia).
+      specialize (U _ M). lia. }
+    assert (Hr : c_len r <= N.of_nat n).
+    { destruct r as [|e r']; [unfold c_len; cbn; lia|].
+      assert (Hl : c_len ((mn, mx) :: e :: r') = c_len (e :: r')).
+      { unfold c_len. cbn [rev]. destruct (rev r' ++ [e]) eqn:R.
+        - destruct (rev r'); discriminate.
+        - reflexivity. }
+      lia. }
+    cbn [c_count]. rewrite (IH _ n H3 Hr).
+    transitivity (count_upto (fun i => ((mn <=? i) && (i <=? mx)) || mem_c r i) n).
+    + rewrite count_upto_or.
+      * rewrite count_upto_interval by lia. reflexivity.
+      * intros i Hi. tailfact H3 i. destruct (mem_c r i); lia.
+    + apply count_upto_ext. intros i Hi. rewrite mem_c_cons. reflexivity.
+Qed.
+
+(* ---------- Inject ---------- *)
+Lemma c_shift_all l : forall lo b, wfc lo l -> b <= lo -> wfc (lo + 1) (map (c_shift_up b) l).
+Proof.
+  induction l as [|[mn mx] r IH]; intros lo b H Hb; [exact I|].
+  cbn in H. destruct H as (H1 & H2 & H3).
+  cbn [map c_shift_up].
+  destruct (mx <? b) eqn:E1; [lia|].
+  destruct (b <=? mn) eqn:E2; [|lia].
+  cbn [wfc]. repeat split; try lia.
+  replace (mx + 1 + 2) with (mx + 2 + 1) by lia. apply IH; [exact H3|lia].
+Qed.
+
+Lemma c_shift_up_spec l : forall lo b, wfc lo l ->
+  wfc lo (map (c_shift_up b) l) /\
+  forall i, i <> b ->
+    mem_c (map (c_shift_up b) l) i = if i <? b then mem_c l i else mem_c l (i - 1).
+Proof.
+  induction l as [|[mn mx] r IH]; intros lo b H.
+  { split; [exact I|]. intros i _. cbn. destruct (i <? b); reflexivity. }
+  cbn in H. destruct H as (H1 & H2 & H3).
+  destruct (IH (mx + 2) b H3) as [W M].
+  cbn [map c_shift_up].
+  destruct (mx <? b) eqn:E1.
+  { split; [cbn [wfc]; repeat split; try lia; exact W|].
+    intros i Hi. rewrite !mem_c_cons, (M i Hi). destruct (i <? b) eqn:Ei; blia. }
+  assert (W' : wfc (mx + 3) (map (c_shift_up b) r)).
+  { replace (mx + 3) with (mx + 2 + 1) by lia. apply c_shift_all; [exact H3|lia]. }
+  destruct (b <=? mn) eqn:E2.
+  { split; [cbn [wfc]; repeat split; try lia; replace (mx + 1 + 2) with (mx + 3) by lia; exact W'|].
+    intros i Hi. rewrite !mem_c_cons, (M i Hi). destruct (i <? b) eqn:Ei; blia. }
+  { split; [cbn [wfc]; repeat split; try lia; replace (mx + 1 + 2) with (mx + 3) by lia; exact W'|].
+    intros i Hi. rewrite !mem_c_cons, (M i Hi). destruct (i <? b) eqn:Ei; blia. }
+Qed.
+
+Theorem c_inject_spec l lo b v : wfc lo l ->
+  wfc (N.min lo b) (c_inject l b v) /\
+  forall i, mem_c (c_inject l b v) i = set_inject (mem_c l) b v i.
+Proof.
+  intro H. unfold c_inject, set_inject.
+  destruct (c_shift_up_spec l lo b H) as [W M].
+  destruct v.
+  - destruct (c_set_spec _ lo b W) as [W' M']. split; [exact W'|].
+    intro i. rewrite M'. destruct (i =? b) eqn:Ei.
+    + destruct (i <? b) eqn:E2; [lia|reflexivity].
+    + cbn [orb]. apply M. lia.
+  - destruct (c_unset_spec _ lo b W) as [W' M']. split; [eapply wfc_weaken; [|exact W']; lia|].
+    intro i. rewrite M'. destruct (i =? b) eqn:Ei.
+    + destruct (i <? b) eqn:E2; [lia|reflexivity].
+    + cbn [negb andb]. apply M. lia.
+Qed.
+
+(* ---------- Extract (works on the reversed run list) ---------- *)
+Fixpoint wfd (ub : N) (l : cbm) : Prop :=
+  match l with
+  | [] => True
+  | (mn, mx) :: r => mn <= mx /\ mx + 2 <= ub /\ wfd mn r
+  end.
+
+Lemma wfd_weaken ub ub' l : ub <= ub' -> wfd ub l -> wfd ub' l.
+Proof. destruct l as [|[mn mx] r]; cbn; intros; intuition lia. Qed.
+
+Lemma mem_d_above ub l i : wfd ub l -> ub <= i + 1 -> mem_c l i = false.
+Proof.
+  revert ub; induction l as [|[mn mx] r IH]; intros ub H Hi; [reflexivity|].
+  cbn in H. destruct H as (H1 & H2 & H3).
+  rewrite mem_c_cons, (IH mn); auto; lia.
+Qed.
+
+Lemma mem_d_ub ub l i : wfd ub l -> mem_c l i = true -> i + 2 <= ub.
+Proof.
+  intros H M. destruct (N.lt_ge_cases (i + 1) ub) as [L|L]; [lia|].
+  rewrite (mem_d_above ub l i H L) in M. discriminate.
+Qed.
+
+Ltac tailfactd H i :=
+  match type of H with
+  | wfd ?ub ?l => let F := fresh "F" in pose proof (mem_d_ub ub l i H) as F
+  end.
+
+Lemma c_extract_rev_spec l : forall ub ub' b,
+  wfd ub l -> ub <= ub' + 1 -> b + 1 <= ub' ->
+  wfd ub' (fst (c_extract_rev l b)) /\
+  snd (c_extract_rev l b) = mem_c l b /\
+  forall i, mem_c (fst (c_extract_rev l b)) i = set_extract (mem_c l) b i.
+Proof.
+  unfold c_extract_rev, set_extract.
+  induction l as [|[mn mx] r IH]; intros ub ub' b H U1 U2.
+  { cbn. repeat split. intro i. destruct (i <? b); reflexivity. }
+  pose proof H as H0. cbn in H. destruct H as (H1 & H2 & H3).
+  cbn [c_extract_rev_gen negb andb].
+  destruct (mx <? b) eqn:E1.
+  { cbn [fst snd]. split; [cbn [wfd]; repeat split; try lia; exact H3|].
+    split.
+    - rewrite mem_c_cons. tailfactd H3 b. blia.
+    - intro i. rewrite !mem_c_cons. tailfactd H3 i. tailfactd H3 (i + 1).
+      destruct (i <? b) eqn:Ei; blia. }
+  destruct ((mn =? b) && (mx =? b)) eqn:E2.
+  { cbn [fst snd]. split; [eapply wfd_weaken; [|exact H3]; lia|].
+    split.
+    - rewrite mem_c_cons. blia.
+    - intro i. rewrite !mem_c_cons. tailfactd H3 i. tailfactd H3 (i + 1).
+      destruct (i <? b) eqn:Ei; blia. }
+  destruct (mn <? b) eqn:E3.
+  { cbn [fst snd]. split; [cbn [wfd]; repeat split; try lia; exact H3|].
+    split.
+    - rewrite mem_c_cons. blia.
+    - intro i. rewrite !mem_c_cons. tailfactd H3 i. tailfactd H3 (i + 1).
+      destruct (i <? b) eqn:Ei; blia. }
+  destruct (mn =? b) eqn:E4.
+  { cbn [fst snd]. split; [cbn [wfd]; repeat split; try lia; exact H3|].
+    split.
+    - rewrite mem_c_cons. blia.
+    - intro i. rewrite !mem_c_cons. tailfactd H3 i. tailfactd H3 (i + 1).
+      destruct (i <? b) eqn:Ei; blia. }
+  cbv zeta.
+  destruct (b =? mn - 1) eqn:E5.
+  { destruct r as [|[mn2 mx2] r2].
+    - cbn [fst snd]. split; [cbn [wfd]; repeat split; lia|].
+      split; [rewrite mem_c_cons, mem_c_nil; lia|].
+      intro i. rewrite !mem_c_cons, !mem_c_nil. destruct (i <? b) eqn:Ei; lia.
+    - cbn in H3. destruct H3 as (G1 & G2 & G3).
+      destruct (mx2 + 1 =? mn - 1) eqn:E6; cbn [fst snd].
+      + split; [cbn [wfd]; repeat split; try lia; exact G3|].
+        split.
+        * rewrite !mem_c_cons. tailfactd G3 b. blia.
+        * intro i. rewrite !mem_c_cons. tailfactd G3 i. tailfactd G3 (i + 1).
+          destruct (i <? b) eqn:Ei; blia.
+      + split; [cbn [wfd]; repeat split; try lia; exact G3|].
+        split.
+        * rewrite !mem_c_cons. tailfactd G3 b. blia.
+        * intro i. rewrite !mem_c_cons. tailfactd G3 i. tailfactd G3 (i + 1).
+          destruct (i <? b) eqn:Ei; blia. }
+  specialize (IH mn (mn - 1) b H3 ltac:(lia) ltac:(lia)).
+  destruct (c_extract_rev_gen false r b) as [r' res]. cbn [fst snd] in *.
+  destruct IH as (W & R & M).
+  split; [cbn [wfd]; repeat split; try lia; exact W|].
+  split.
+  - rewrite mem_c_cons, R. blia.
+  - intro i. rewrite !mem_c_cons, M. destruct (i <? b) eqn:Ei; blia.
+Qed.
+
+(* reversal turns an ascending run list into a descending one and back *)
+Lemma mem_c_rev l i : mem_c (rev l) i = mem_c l i.
+Proof.
+  induction l as [|e r IH]; [reflexivity|].
+  cbn [rev]. rewrite mem_c_app, IH. destruct e as [mn mx]. rewrite !mem_c_cons, mem_c_nil.
+  blia.
+Qed.
+
+Lemma wfd_app_end a : forall ub mn mx,
+  wfd ub a -> mn <= mx -> (a = [] -> mx + 2 <= ub) ->
+  Forall (fun e => mx + 2 <= fst e) a -> wfd ub (a ++ [(mn, mx)]).
+Proof.
+  induction a as [|[m x] a IH]; intros ub mn mx H Hm He Hf.
+  - specialize (He eq_refl). cbn. repeat split; lia.
+  - cbn in H. destruct H as (H1 & H2 & H3). inversion Hf as [|? ? F1 F2]; subst. cbn [fst] in F1.
+    cbn [app wfd]. repeat split; try lia.
+    apply IH; auto; intros; lia.
+Qed.
+
+Lemma wfc_mins lo l : wfc lo l -> Forall (fun e => lo <= fst e) l.
+Proof.
+  revert lo; induction l as [|[mn mx] r IH]; intros lo H; [constructor|].
+  cbn in H. destruct H as (H1 & H2 & H3). constructor; [exact H1|].
+  eapply Forall_impl; [|apply (IH _ H3)]. intros [a b]; cbn; lia.
+Qed.
+
+Lemma wfc_rev_wfd l : forall lo ub, wfc lo l -> Forall (fun e => snd e + 2 <= ub) l -> wfd ub (rev l).
+Proof.
+  induction l as [|[mn mx] r IH]; intros lo ub H Hu; [exact I|].
+  cbn in H. destruct H as (H1 & H2 & H3).
+  inversion Hu as [|? ? U1 U2]; subst. cbn [snd] in U1.
+  cbn [rev]. apply wfd_app_end.
+  - apply (IH (mx + 2)); assumption.
+  - exact H2.
+  - intros _. exact U1.
+  - apply Forall_rev. apply (wfc_mins _ _ H3).
+Qed.
+
+Lemma wfc_app_end a : forall lo mn mx,
+  wfc lo a -> lo <= mn -> mn <= mx -> Forall (fun e => snd e + 2 <= mn) a ->
+  wfc lo (a ++ [(mn, mx)]).
+Proof.
+  induction a as [|[m x] a IH]; intros lo mn mx H Hl Hm Hf.
+  - cbn. lia.
+  - cbn in H. destruct H as (H1 & H2 & H3). inversion Hf as [|? ? F1 F2]; subst. cbn [snd] in F1.
+    cbn [app wfc]. repeat split; try lia. apply IH; auto.
+Qed.
+
+Lemma wfd_maxs ub l : wfd ub l -> Forall (fun e => snd e + 2 <= ub) l.
+Proof.
+  revert ub; induction l as [|[mn mx] r IH]; intros ub H; [constructor|].
+  cbn in H. destruct H as (H1 & H2 & H3). constructor; [exact H2|].
+  eapply Forall_impl; [|apply (IH _ H3)]. intros [a b]; cbn; lia.
+Qed.
+
+Lemma wfd_rev_wfc l : forall ub, wfd ub l -> wfc 0 (rev l).
+Proof.
+  induction l as [|[mn mx] r IH]; intros ub H; [exact I|].
+  cbn in H. destruct H as (H1 & H2 & H3).
+  cbn [rev]. apply wfc_app_end; try lia.
+  - apply (IH mn H3).
+  - apply Forall_rev. apply (wfd_maxs _ _ H3).
+Qed.
+
+Lemma cbm_upper l : exists ub, Forall (fun e : N * N => snd e + 2 <= ub) l /\
+                               forall b, exists ub', ub <= ub' + 1 /\ b + 1 <= ub'.
+Proof.
+  induction l as [|[mn mx] r [ub [F G]]].
+  - exists 0. split; [constructor|]. intro b. exists (b + 1). lia.
+  - exists (N.max ub (mx + 2)). split.
+    + constructor; [cbn; lia|]. eapply Forall_impl; [|exact F]. intros [a c]; cbn; lia.
+    + intro b. exists (N.max ub (mx + 2) + b + 1). lia.
+Qed.
+
+Theorem c_extract_spec l b : wf_c l ->
+  wf_c (fst (c_extract l b)) /\
+  snd (c_extract l b) = mem_c l b /\
+  forall i, mem_c (fst (c_extract l b)) i = set_extract (mem_c l) b i.
+Proof.
+  intro H. unfold c_extract.
+  destruct (cbm_upper l) as [ub [F G]]. destruct (G b) as [ub' [U1 U2]].
+  pose proof (wfc_rev_wfd l 0 ub H F) as D.
+  destruct (c_extract_rev_spec (rev l) ub ub' b D U1 U2) as (W & R & M).
+  destruct (c_extract_rev (rev l) b) as [r res]. cbn [fst snd] in *.
+  split; [apply (wfd_rev_wfc r ub' W)|].
+  split; [rewrite R; apply mem_c_rev|].
+  intro i. rewrite mem_c_rev, M. unfold set_extract.
+  rewrite !mem_c_rev. reflexivity.
+Qed.
